@@ -7,6 +7,9 @@ VERIF = os.path.dirname(os.path.dirname(os.path.abspath(__file__)))
 
 # id -> (technique, level text, level note, design ref)   -- only checks that exist under mc/checks are claimed
 CHECKS = {
+    "C10": ("bounded exhaustive enumeration of pattern syntax trees (full atom product, all trees <= 3/4 leaves with every parenthesisation) against an independent reader",
+            "The full product of the atom menus (12 operators x NOT x every compatible constant kind incl. escapes, astral characters, hex, binary, timestamps with trailing zeros, sets x 13 path shapes incl. quoted, indexed, reference, hyphenated-type steps), all comparison trees and all observation trees with <=3 (thorough 4) leaves over every operator assignment and every choice of redundant parentheses, qualifier placements (each kind, stacked pairs, on operand vs on group) and mixed trees are run through text -> create_pattern_object -> str (twice), a field-by-field walk of the model object, and programmatic construction from the public classes, under the 2.1 grammar and (where the third-party parser accepts the text) the 2.0 grammar. An independent reader (third-party ANTLR parse tree + own listener) must read back a structurally equal tree (modulo redundant parentheses and associative flattening); findings are delta-debugged to the smallest deviation from [x:p = 1].",
+            "trusted: the stix2-patterns ANTLR grammar as the definition of a valid pattern; mc/ref/pattern_ast.py (printer/reader round trip self-consistent on the whole generated set)", "DESIGN.md §3 C10"),
     "C13": ("exhaustive exploration of operation histories (depth <= 2 over a menu of public operations) under a frame-condition monitor",
             "63 public operations (constructors, parse/parse_observable/dict_to_stix2, copy/deepcopy/serialize/canonicalize, new_version/revoke/remove_custom_stix on objects and dicts, the six marking functions on objects, dicts and as methods, bundling, ObjectFactory/Environment, MemoryStore/Source/Sink, FileSystemStore, navigation, CompositeDataSource, filters, pattern equivalence, utils) are run alone on 5 argument shapes (flat/nested, aliased, non-canonical hash spellings, library objects shared between parents, tuples) and in ordered pairs on the same inputs (quick: all pairs within an API area + a deterministic cross-area cover on 2 shapes; thorough: all 3969 pairs on all shapes); deep snapshots of every argument and of every object created earlier are compared around each call. For the maximal instance of every type of both versions and 6 objects with custom / extension properties: setattr, delattr, setitem, delitem of every property (and of nested library objects) are refused and change nothing; deepcopy is equal, same class and container-disjoint; two independently created Environments do not influence each other.",
             "trusted: snapshot function snap() in the check; aliasing into new objects is not flagged, only observed changes", "DESIGN.md §3 C13"),
